@@ -152,6 +152,7 @@ type Ctx struct {
 	curResults     []types.Object
 	resTypes       []types.Type
 	panicOK        string
+	entryBinds map[string]Val
 	caseExitAll    bool
 	ifaceNil       bool
 	nilPanics      bool
